@@ -539,3 +539,249 @@ Example C09_timeout_nonvacuous :
   (* ... and the hand-over of write 2 is indeed not enabled while the Pull loop holds write 1 *)
   option_map snd (t_run noeq 5 (t_init None) [TSet 1; THand; TSet 2; THand]) = None.
 Proof. vm_compute. auto. Qed.
+
+(* ------------------------------------------------------------------------------------------ *)
+(* Soundness of the judge for the trace cases of the assembled pipelines (Excess/PipeJudgeProofs.v) *)
+(* ------------------------------------------------------------------------------------------ *)
+From SC Require Import Excess.PipeJudgeProofs.
+
+(* a trace the checker accepts as drained has delivered every seed event, whatever post is (the
+   count was "a direct observation" before: now it follows from the model) *)
+Theorem C09_pipe_drained_all_seeds_delivered : forall post fuel thr nseed es,
+  pipe_agrees_drained post fuel thr nseed es = true -> nseeds_of es = nseed.
+Proof. exact pipe_drained_seed_count. Qed.
+Print Assumptions C09_pipe_drained_all_seeds_delivered.
+
+(* KPipe without backpressure: EVERY external trace (any length, any publications, any reader pace)
+   that the set-of-states checker accepts as a drained run and that is inside the guard passes the
+   whole oracle: not blocked, seed count, received = valid script on the seed view, fold = committed *)
+Theorem C09_judge_sound_pipe_lossy : forall seeded nseed fuel hist es blocked,
+  agrees (KPipe false seeded nseed fuel hist es blocked) = true ->
+  C09_guard (KPipe false seeded nseed fuel hist es blocked) = true ->
+  C09_ok (KPipe false seeded nseed fuel hist es blocked) = true.
+Proof. exact judge_sound_pipe_lossy. Qed.
+Print Assumptions C09_judge_sound_pipe_lossy.
+
+Example C09_judge_sound_pipe_lossy_nonvacuous :
+  let a0 := mkChange 0 1 None (Some 1) 0 false false in
+  let u0 := mkChange 0 2 (Some 1) (Some 3) 0 false false in
+  let a1 := mkChange 1 1 None (Some 2) 0 false false in
+  let c := KPipe false 1 1 4 [mkPub a0 1; mkPub u0 2; mkPub a1 3]
+             [EPub (mkPub a0 1); EPub (mkPub u0 2); ESeed; EPub (mkPub a1 3); ERecv u0; ERecv a1] false in
+  agrees c = true /\ C09_guard c = true /\ C09_ok c = true.
+Proof. vm_compute. auto. Qed.
+
+(* Value pipeline, EVERY action sequence, any equivalence, any seed: what the subscriber has received
+   followed by what is in flight (seed not yet taken, the Pull loop's value, DropExcess' slot) is a
+   subsequence of seed ++ written -- nothing is invented, duplicated or reordered *)
+Theorem C09_value_received_is_subsequence : forall eqv l seed s rcv,
+  v_run eqv (v_init seed) l = Some (s, rcv) ->
+  subseq (rcv ++ vflight s) (olist seed ++ vpublished_of l) = true.
+Proof. exact value_received_is_subsequence. Qed.
+Print Assumptions C09_value_received_is_subsequence.
+
+(* KVPipe without backpressure (no guard: C09_guard is true on this kind): an accepted drained trace
+   passes the oracle -- received is a subsequence of seed ++ written ending in the newest; with
+   nothing written the subscriber got exactly the seed *)
+Theorem C09_judge_sound_value_pipe_lossy : forall seed es blocked,
+  agrees (KVPipe false seed es blocked) = true -> C09_ok (KVPipe false seed es blocked) = true.
+Proof. exact judge_sound_vpipe_lossy. Qed.
+Print Assumptions C09_judge_sound_value_pipe_lossy.
+
+(* KVPipe with backpressure: w_explore accepts only traces that end drained; then received = seed ++
+   written exactly *)
+Theorem C09_judge_sound_value_pipe_backpressure : forall seed es blocked,
+  agrees (KVPipe true seed es blocked) = true -> C09_ok (KVPipe true seed es blocked) = true.
+Proof. exact judge_sound_vpipe_backpressure. Qed.
+Print Assumptions C09_judge_sound_value_pipe_backpressure.
+
+Example C09_judge_sound_value_pipe_nonvacuous :
+  agrees (KVPipe false (Some 1) [VEPub 2; VEPub 3; VERecv 1; VEPub 4; VERecv 3; VERecv 4] false) = true /\
+  agrees (KVPipe false (Some 1) [VERecv 1] false) = true /\
+  agrees (KVPipe true (Some 1) [VERecv 1; VEPub 2; VERecv 2; VEPub 3; VERecv 3] false) = true /\
+  (* a trace that stops with a value still held is not accepted (so w_explore is not vacuous either way) *)
+  agrees (KVPipe true None [VEPub 2] false) = false.
+Proof. vm_compute. auto. Qed.
+
+(* KPipe with backpressure.  The judge's agrees (b_explore) accepts every PREFIX of a run, the oracle
+   demands the whole committed script: soundness as stated for the other kinds is FALSE here -- *)
+Example C09_judge_sound_pipe_backpressure_undrained_refuted :
+  let a0 := mkChange 0 1 None (Some 1) 0 false false in
+  let c1 := KPipe true 0 1 4 [] [] false in
+  let c2 := KPipe true 0 0 4 [mkPub a0 1] [EPub (mkPub a0 1)] false in
+  (agrees c1 = true /\ C09_guard c1 = true /\ C09_ok c1 = false) /\
+  (agrees c2 = true /\ C09_guard c2 = true /\ C09_ok c2 = false).
+Proof. vm_compute. auto. Qed.
+
+(* -- and true for the traces that end drained (b_explore_drained = b_explore + "seed taken, Pull loop
+   empty at the end", which is how the harness ends every run): such a trace agrees, and inside the
+   guard it passes the whole oracle; received is then EXACTLY what changesAfter lets through of the
+   publications, in arrival order (so per id the committed script, same length) *)
+Theorem C09_backpressure_drained_trace_exact : forall es s, b_explore_drained Some s es = true ->
+  recvd_of es = olist (b_pl s) ++ changes_after (b_thr s) (epubs_of es) /\ nseeds_of es = b_seed s.
+Proof. exact b_explore_drained_recvd. Qed.
+Print Assumptions C09_backpressure_drained_trace_exact.
+
+Theorem C09_judge_sound_pipe_backpressure_drained : forall seeded nseed fuel hist es blocked,
+  blocked = false -> b_explore_drained Some (b_init seeded nseed) es = true ->
+  C09_guard (KPipe true seeded nseed fuel hist es blocked) = true ->
+  agrees (KPipe true seeded nseed fuel hist es blocked) = true /\
+  C09_ok (KPipe true seeded nseed fuel hist es blocked) = true.
+Proof. exact judge_sound_pipe_backpressure_drained. Qed.
+Print Assumptions C09_judge_sound_pipe_backpressure_drained.
+
+Example C09_judge_sound_pipe_backpressure_nonvacuous :
+  let a0 := mkChange 0 1 None (Some 1) 0 false false in
+  let u0 := mkChange 0 2 (Some 1) (Some 3) 0 false false in
+  let a1 := mkChange 1 1 None (Some 2) 0 false false in
+  let es := [ESeed; EPub (mkPub a0 1); EPub (mkPub u0 2); ERecv u0; EPub (mkPub a1 3); ERecv a1] in
+  b_explore_drained Some (b_init 1 1) es = true /\
+  C09_guard (KPipe true 1 1 4 [mkPub a0 1; mkPub u0 2; mkPub a1 3] es false) = true.
+Proof. vm_compute. auto. Qed.
+
+(* two streams with the same per-id subsequences have the same length (used for the oracle's length
+   clause; any lists, no validity hypothesis) *)
+Theorem C09_per_id_same_length : forall l1 l2, per_id_same l1 l2 -> List.length l1 = List.length l2.
+Proof. intros l1 l2 P. exact (per_id_same_length _ l1 l2 eq_refl P). Qed.
+Print Assumptions C09_per_id_same_length.
+
+(* All case kinds at once: for every kind whose agrees compares with a model, agreement inside the
+   guard implies the oracle -- with the two provisos stated in the type (the measured window of the
+   timeout; the drained end of a backpressure Collection trace).  The KApiColl / KApiValue / KApiWaits
+   runs have agrees = true by definition (their receive pattern is the scheduler's and is not
+   recorded): they are judged by the oracle alone and nothing can be said here. *)
+Theorem C09_judge_sound_all_modelled_kinds : forall c,
+  agrees c = true -> C09_guard c = true ->
+  match c with
+  | KApiColl _ _ _ _ _ | KApiValue _ _ _ _ _ | KApiWaits _ _ _ => True
+  | KApiTimeout _ _ ms _ _ _ => 4000 <= ms <= 9000 -> C09_ok c = true
+  | KPipe true seeded nseed _ _ es _ =>
+      b_explore_drained Some (b_init seeded nseed) es = true -> C09_ok c = true
+  | _ => C09_ok c = true
+  end.
+Proof. exact judge_sound_all_modelled_kinds. Qed.
+Print Assumptions C09_judge_sound_all_modelled_kinds.
+
+(* ------------------------------------------------------------------------------------------ *)
+(* Value: eventual delivery from EVERY reachable state as one statement; the trace checker is exact *)
+(* ------------------------------------------------------------------------------------------ *)
+From SC Require Import Excess.ValueCheckerComplete Excess.ValueEventual.
+
+(* After ANY cancel-free run of writer -> DropExcess -> Pull loop -> subscriber (any reader pace, any
+   equivalence, any seed) there is a continuation of at most v_mu internal steps / receives -- no
+   further write needed -- after which nothing is in flight, and then what the subscriber has
+   received is a subsequence of seed ++ written; it is exactly the seed if nothing was written, and
+   otherwise ends in the newest value written, or the newest was left out as equivalent to the last
+   one received.  (C09_value_drain_exists needed side conditions on the state and C09_value_latest
+   needed a write: both are discharged here from reachability.) *)
+Theorem C09_value_eventual_delivery : forall eqv l seed s rcv,
+  vno_cancel l = true -> v_run eqv (v_init seed) l = Some (s, rcv) ->
+  exists l2 s2 out2,
+    forallb v_internal_or_recv l2 = true /\ (List.length l2 <= v_mu s)%nat /\
+    v_run eqv s l2 = Some (s2, out2) /\ v_mu s2 = O /\
+    subseq (rcv ++ out2) (olist seed ++ vpublished_of l) = true /\
+    (vpublished_of l = [] -> rcv ++ out2 = olist seed) /\
+    (vpublished_of l <> [] ->
+       lastZ (rcv ++ out2) = lastZ (vpublished_of l) \/
+       (exists m, lastZ (vpublished_of l) = Some m /\ eqv (lastZ (rcv ++ out2)) m = true)).
+Proof. exact value_eventual_delivery. Qed.
+Print Assumptions C09_value_eventual_delivery.
+
+Example C09_value_eventual_delivery_nonvacuous :
+  (* stalled reader: seed 1 not taken, 2 written and moved on to the Pull loop, 3 and 4 written: v_mu = 4 *)
+  let l := [VPublish 2; VRecv; VStep; VPublish 3; VPublish 4] in
+  vno_cancel l = true /\
+  option_map (fun x => (v_mu (fst x), snd x)) (v_run (fun _ _ => false) (v_init (Some 1)) l) = Some (3%nat, [1]) /\
+  option_map snd (v_run (fun _ _ => false) (v_init (Some 1)) (l ++ [VRecv; VStep; VRecv])) = Some [1; 2; 4].
+Proof. vm_compute. auto. Qed.
+
+(* The Value trace checker accepts EXACTLY the external traces of cancel-free model runs that end
+   with nothing in flight: sound (no trace accepted that the model cannot produce) and complete (no
+   false alarm -- one VStep at most fits between two external actions, which is all v_explore tries) *)
+Theorem C09_value_checker_exact : forall eqv seed es,
+  value_agrees_drained eqv seed es = true <->
+  exists l s', v_trace eqv (v_init seed) l = Some (s', es) /\ vno_cancel l = true /\ v_mu s' = O.
+Proof.
+  intros eqv seed es. split.
+  - apply value_agrees_drained_run.
+  - intros [l [s' [T [N M]]]]. exact (value_agrees_drained_complete eqv l seed s' es T N M).
+Qed.
+Print Assumptions C09_value_checker_exact.
+
+(* ... and at every point of a run, not only at the end: the final state of every cancel-free run
+   with external trace es is in the explored set (closed under one internal step) *)
+Theorem C09_value_checker_complete : forall eqv l seed s' es,
+  v_trace eqv (v_init seed) l = Some (s', es) -> vno_cancel l = true ->
+  In s' (vclose eqv (v_explore eqv [v_init seed] es)).
+Proof.
+  intros eqv l seed s' es T N.
+  apply (v_explore_complete eqv l [v_init seed] (v_init seed) s' es); [|exact T|exact N].
+  unfold vclose. apply in_or_app. left. left. reflexivity.
+Qed.
+Print Assumptions C09_value_checker_complete.
+
+(* ------------------------------------------------------------------------------------------ *)
+(* the verdict the judge computes; completeness of the deterministic (backpressure) checkers       *)
+(* ------------------------------------------------------------------------------------------ *)
+From SC Require Import Excess.BpCheckerComplete.
+
+(* Verdict 2 = "the observation agrees with the model and the property predicate fails on it": the
+   model itself would violate the property.  For every modelled case kind the judge can never
+   return it, inside or outside the guard (provisos as in C09_judge_sound_all_modelled_kinds): a
+   VIOLATION reported by C09 for these kinds always comes with a disagreement between the code
+   and the model, never from the model. *)
+Theorem C09_judge_never_blames_the_model : forall c,
+  match c with
+  | KApiColl _ _ _ _ _ | KApiValue _ _ _ _ _ | KApiWaits _ _ _ => True
+  | KApiTimeout _ _ ms _ _ _ => 4000 <= ms <= 9000 -> judge c <> 2
+  | KPipe true seeded nseed _ _ es _ =>
+      (agrees c = true -> b_explore_drained Some (b_init seeded nseed) es = true) -> judge c <> 2
+  | _ => judge c <> 2
+  end.
+Proof. exact judge_never_blames_the_model. Qed.
+Print Assumptions C09_judge_never_blames_the_model.
+
+(* the external trace of EVERY cancel-free run of the backpressure Collection model is accepted by
+   b_explore, and by b_explore_drained when the run ends with the seed taken and the Pull loop empty *)
+Theorem C09_backpressure_checker_complete : forall post l s s' es,
+  b_trace post s l = Some (s', es) -> no_cancel l = true ->
+  b_explore post s es = true /\ (b_idle s' = true -> b_explore_drained post s es = true).
+Proof. exact b_explore_complete. Qed.
+Print Assumptions C09_backpressure_checker_complete.
+
+(* same for Value with backpressure (w_explore demands the drained end itself) *)
+Theorem C09_value_backpressure_checker_complete : forall eqv l s s' es,
+  w_trace eqv s l = Some (s', es) -> vno_cancel l = true ->
+  w_seed s' = None -> w_pl s' = None -> w_explore eqv s es = true.
+Proof. exact w_explore_complete. Qed.
+Print Assumptions C09_value_backpressure_checker_complete.
+
+Example C09_backpressure_checkers_nonvacuous :
+  let a0 := mkChange 0 1 None (Some 1) 0 false false in
+  let u0 := mkChange 0 2 (Some 1) (Some 3) 0 false false in
+  option_map snd (b_trace Some (b_init 1 1) [PRecv; Publish (mkPub a0 1); Publish (mkPub u0 2); PRecv])
+    = Some [ESeed; EPub (mkPub a0 1); EPub (mkPub u0 2); ERecv u0] /\
+  (* the writer waits: a second publication is not enabled while the Pull loop holds the first *)
+  b_trace Some (b_init 0 0) [Publish (mkPub a0 1); Publish (mkPub u0 2)] = None /\
+  option_map snd (w_trace (fun _ _ => false) (w_init (Some 1)) [VRecv; VPublish 2; VRecv])
+    = Some [VERecv 1; VEPub 2; VERecv 2].
+Proof. vm_compute. auto. Qed.
+
+(* One ingredient of the (unproved) completeness of the lossy Collection trace checker: with the
+   default ReadRequest at most two internal steps fit between two external actions, from ANY state --
+   so the closure fuel 4 the harness passes is more than enough, for every backlog *)
+From SC Require Import Excess.ClosureFuel.
+Theorem C09_internal_chain_bound : forall l s s' out,
+  forallb is_step l = true -> p_run Some s l = Some (s', out) ->
+  (List.length l + tau_budget s' = tau_budget s)%nat /\ (List.length l <= 2)%nat.
+Proof. exact internal_chain_bound. Qed.
+Print Assumptions C09_internal_chain_bound.
+
+Example C09_internal_chain_bound_nonvacuous :   (* a chain of exactly two internal steps exists *)
+  let a0 := mkChange 0 1 None (Some 1) 0 false false in
+  let a1 := mkChange 1 1 None (Some 2) 0 false false in
+  option_map (fun x => tau_budget (fst x))
+    (p_run Some (p_init 0 0) [Publish (mkPub a0 1); Step 0; Publish (mkPub a1 2)]) = Some 2%nat /\
+  option_map snd (p_run Some (p_init 0 0) [Publish (mkPub a0 1); Step 0; Publish (mkPub a1 2); Step 1; Step 0; PRecv])
+    = Some [a0].
+Proof. vm_compute. auto. Qed.
